@@ -429,6 +429,20 @@ def writes_only_scratch(norm: str) -> bool:
     return bool(m) and m.group(2) in _TEMP
 
 
+_QUERY_KEYS: dict = {}
+
+
+def _query_key(prefix: str) -> str:
+    k = _QUERY_KEYS.get(prefix)
+    if k is None:
+        try:
+            k = sqlfront.match_key(prefix)
+        except sqlfront.SQLError:
+            k = prefix
+        _QUERY_KEYS[prefix] = k
+    return k
+
+
 class DbStub:
     """Stands for `DBSession`/`sqlite3.Connection`: every statement is an effect `sql`.
 
@@ -477,8 +491,9 @@ class DbStub:
         rowspec = facts = on_none = on_rows = None
         always = False
         norm = sqlfront.normalize(sql)
+        key = sqlfront.match_key(sql)
         for q in self.queries:
-            if norm.startswith(q[0]):
+            if norm.startswith(q[0]) or key.startswith(_query_key(q[0])):
                 rowspec = q[1]
                 facts = q[2] if len(q) > 2 else None
                 always = norm.startswith(("SELECT EXISTS", "SELECT COUNT", "SELECT count")) or (len(q) > 3 and q[3])
